@@ -309,3 +309,379 @@ Proof.
   intros W Hp Href. unfold cJSON_GetArrayItem, spec_get_array_item.
   destruct (Z.ltb_spec index 0); [done|]. by eapply get_array_item_sim.
 Qed.
+
+Ltac mn := cbv beta; rewrite ?bindM_assoc; cbv beta.
+
+(** * cJSON_DetachItemViaPointer *)
+Lemma index_of_lookup (l : list positive) k x : NoDup l -> l !! k = Some x -> index_of x l = Some k.
+Proof.
+  revert k. induction l as [|a l IH]; intros k ND Hk; [done|]. apply NoDup_cons in ND as [Ha ND].
+  cbn. destruct k as [|k]; cbn in Hk.
+  - injection Hk as ->. by rewrite decide_True.
+  - rewrite decide_False; [by rewrite (IH k)|]. intros ->. apply Ha. by eapply elem_of_list_lookup_2.
+Qed.
+Lemma index_of_Some (l : list positive) k x : index_of x l = Some k -> l !! k = Some x.
+Proof.
+  revert k. induction l as [|a l IH]; intros k H; [done|]. cbn in H.
+  destruct (decide (a = x)) as [->|Hne]; [by injection H as <-|].
+  destruct (index_of x l) as [k'|]; [|done]. injection H as <-. by apply IH.
+Qed.
+
+(** resetting both fields of a present entry *)
+Lemma upd_next_prev_reset i a b (m : gmap positive (ptr * ptr)) :
+  is_Some (m !! i) -> upd_next i a (upd_prev i b m) = <[i := (a, b)]> m.
+Proof.
+  intros [e He]. apply map_eq. intros j. unfold upd_next, upd_prev. destruct (decide (i = j)) as [->|Hne].
+  - by rewrite !lookup_alter, lookup_insert, He.
+  - by rewrite !lookup_alter_ne, lookup_insert_ne.
+Qed.
+
+Lemma cJSON_DetachItemViaPointer_sim h F p x d cs k tx :
+  WF h F ->
+  find_tree p F = Some (T p d cs) -> cs !! k = Some tx -> tid tx = x ->
+  let F' := set_children p (delete k cs) F ++ [tx] in
+  spec_detach F (Some p) (Some x) = (F', Some x) /\
+  cJSON_DetachItemViaPointer (Some p) (Some x) h = Ret (Some x, upd_maps h (heap_lnk_of F') (heap_dat_of F')) /\
+  WF (upd_maps h (heap_lnk_of F') (heap_dat_of F')) F'.
+Proof.
+  intros W Hp Hk Htx F'.
+  pose proof (wf_nodup _ _ W) as ND.
+  (* 2. focus on the container *)
+  destruct (focus_container _ _ _ _ ND Hp) as (FL0 & E1 & E2).
+  set (FL := flat cs ++ FL0) in *.
+  assert (HFL' : flat F' ≡ₚ (p, d, delete k (tid <$> cs)) :: FL).
+  { unfold F'. rewrite flat_app, flat_singleton, E2. rewrite list_fmap_delete. cbn. apply Permutation_skip.
+    unfold FL. rewrite (delete_Permutation cs k tx Hk) at 2. rewrite flat_cons.
+    rewrite <- !app_assoc. rewrite (Permutation_app_comm (flat_t tx)). by rewrite <- !app_assoc. }
+  assert (HR' : roots F' ≡ₚ x :: roots F).
+  { unfold F'. rewrite roots_app, roots_set_children. cbn. rewrite Htx. by rewrite <- Permutation_cons_append. }
+  assert (Hkx : (tid <$> cs) !! k = Some x) by (by rewrite list_lookup_fmap, Hk; cbn; rewrite Htx).
+  remember (tid <$> cs) as ks eqn:Eks.
+  destruct (heap_lnk_of_focus _ _ _ _ _ _ ND (reflexivity _) E1) as [HL NDk].
+  destruct (heap_dat_of_focus _ _ _ _ _ ND E1) as [HD HpFL].
+  set (M0 := lnk_of (roots F) FL) in *.
+  assert (NDks : NoDup ks) by (by apply NoDup_app in NDk as (? & _ & _)).
+  (* 1. the specification *)
+  split.
+  { unfold spec_detach, children_of. rewrite Hp. cbn [fmap option_fmap option_map tchildren].
+    rewrite <- Eks. rewrite (index_of_lookup _ _ _ NDks Hkx). by rewrite Hk. }
+  clear Eks.
+  assert (Hlive : forall c, c = p \/ c ∈ ks -> c ∈ h_live h).
+  { intros c Hc. apply (WF_ids_live _ _ _ W). destruct Hc as [->|Hc].
+    - rewrite ids_flat, E1. cbn. by left.
+    - eapply (cids_in_ids F p d ks); [|done]. rewrite E1. by left. }
+  assert (Hxks : x ∈ ks) by (by eapply elem_of_list_lookup_2).
+  assert (Hxdel : x ∉ delete k ks).
+  { intros Hin. apply elem_of_list_lookup in Hin as [j Hj].
+    destruct (decide (j < k)).
+    - rewrite lookup_delete_lt in Hj by done. pose proof (NoDup_lookup _ _ _ _ NDks Hj Hkx). lia.
+    - rewrite lookup_delete_ge in Hj by lia. pose proof (NoDup_lookup _ _ _ _ NDks Hj Hkx). lia. }
+  assert (HM0x : M0 !! x = None).
+  { apply lnk_of_lookup_None. apply NoDup_app in NDk as (_ & H & _). by apply H. }
+  assert (Hnoref : rd_ref d = None).
+  { pose proof (wf_ref _ _ W) as Hr. rewrite E1 in Hr. apply Forall_cons in Hr as [[Hr1 Hr2] _]. cbn in *.
+    destruct (rd_ref d); [|done]. rewrite Hr1 in Hkx by auto. done. }
+  (* 3. the target maps, and WF of the target *)
+  set (L' := <[x := (None, None)]> (links (delete k ks)) ∪ M0).
+  set (D' := <[p := mk_dat d (delete k ks)]> (dat_of FL)).
+  assert (W' : WF (upd_maps h L' D') F').
+  { eapply (WF_refocus h _ F F' (x :: roots F) p d ks (delete k ks) FL W E1 HR' HFL'); try done.
+    - pose proof (wf_ref _ _ W) as Hr. rewrite E1 in Hr. apply Forall_cons in Hr as [[Hr1 _] _]. cbn in *.
+      intros Hd. by rewrite (Hr1 Hd).
+    - change (h_lnk (upd_maps h L' D')) with L'. unfold L'. rewrite lnk_of_cons_root. fold M0. symmetry.
+      apply union_insert_move. by apply links_lookup_None. }
+  assert (heap_lnk_of F' = L') as -> by (symmetry; apply (wf_lnk _ _ W')).
+  assert (heap_dat_of F' = D') as -> by (symmetry; apply (wf_dat _ _ W')).
+  split; [|exact W'].
+  (* 4. run the code *)
+  rewrite <- (upd_maps_id h) at 1. rewrite (wf_lnk _ _ W), (wf_dat _ _ W), HL, HD.
+  unfold cJSON_DetachItemViaPointer. cbn [is_null orb].
+  rewrite (run_get_child_bind _ _ _ _ _ _ (Hlive p (or_introl eq_refl)) (lookup_insert _ _ _)).
+  change (nd_child (mk_dat d ks)) with (child_of d ks).
+  assert (Hlx : x ∈ h_live h) by auto.
+  assert (Hlp : p ∈ h_live h) by auto.
+  pose proof (union_links_lookup ks M0 k x NDks Hkx) as HLx.
+  destruct k as [|k'].
+  - (* the item is the first child *)
+    rewrite (ref_ok_child_of_nonempty d ks x Hkx). rewrite ptr_eqb_refl. cbn [negb]. rewrite bindM_ret.
+    rewrite (run_get_child_bind _ _ _ _ _ _ Hlp (lookup_insert _ _ _)).
+    change (nd_child (mk_dat d ks)) with (child_of d ks). rewrite (ref_ok_child_of_nonempty d ks x Hkx).
+    rewrite ptr_eqb_refl. cbn [negb when]. rewrite bindM_ret.
+    rewrite (run_get_next_bind _ _ _ _ _ _ Hlx HLx). rewrite link_at_0. cbn [fst].
+    destruct ks as [|x' l']; [done|]. injection Hkx as ->.
+    pose proof (links_delete_head x l' NDks) as Hdel. change (delete 0 (x :: l')) with l' in *.
+    destruct l' as [|n' l''].
+    + (* it is the only child *)
+      cbn [lookup list_lookup is_null negb when]. rewrite bindM_ret.
+      rewrite (run_get_child_bind _ _ _ _ _ _ Hlp (lookup_insert _ _ _)).
+      cbn [nd_child mk_dat child_of]. rewrite ptr_eqb_refl.
+      rewrite ?bindM_assoc. rewrite (run_get_next_bind _ _ _ _ _ _ Hlx HLx). rewrite link_at_0. cbn [fst lookup list_lookup].
+      rewrite (run_set_child_bind _ _ _ _ _ _ _ Hlp (lookup_insert _ _ _)).
+      rewrite run_set_prev_bind by (auto using union_links_is_Some).
+      rewrite run_set_next_bind by (auto || (rewrite is_Some_upd_prev; auto using union_links_is_Some)).
+      unfold ret. do 2 f_equal. unfold L', D'. f_equal.
+      * rewrite upd_next_prev_reset by (auto using union_links_is_Some).
+        rewrite insert_union_l. f_equal. rewrite Hdel. by rewrite insert_delete_insert.
+      * rewrite insert_insert. f_equal. unfold nd_set_child, mk_dat. cbn. by rewrite Hnoref.
+    + (* at least two children: the new head inherits head.prev = tail *)
+      assert (n' <> x) by (intros ->; apply Hxdel; by left).
+      assert (Hn'ks : n' ∈ x :: n' :: l'') by (right; by left).
+      remember (x :: n' :: l'') as ks eqn:Eks.
+      assert (Hk1 : ks !! 1 = Some n') by (by subst ks).
+      rewrite Hk1. cbn [is_null negb when]. rewrite ?bindM_assoc.
+      rewrite (run_get_next_bind _ _ _ _ _ _ Hlx HLx). rewrite link_at_0. cbn [fst snd]. rewrite Hk1. mn.
+      rewrite (run_get_prev_bind _ _ _ _ _ _ Hlx HLx). rewrite link_at_0. cbn [fst snd]. mn.
+      rewrite run_set_prev_bind by (auto using union_links_is_Some).
+      rewrite (run_get_child_bind _ _ _ _ _ _ Hlp (lookup_insert _ _ _)).
+      change (nd_child (mk_dat d ks)) with (child_of d ks).
+      rewrite (ref_ok_child_of_nonempty d ks x) by (by subst ks).
+      rewrite ptr_eqb_refl. rewrite ?bindM_assoc.
+      rewrite (run_get_next_bind _ _ _ _ _ (link_at ks 0) Hlx) by (by rewrite lookup_upd_prev_ne).
+      rewrite link_at_0. cbn [fst]. rewrite Hk1.
+      rewrite (run_set_child_bind _ _ _ _ _ _ _ Hlp (lookup_insert _ _ _)).
+      rewrite run_set_prev_bind by (auto || (rewrite is_Some_upd_prev; auto using union_links_is_Some)).
+      rewrite run_set_next_bind by (auto || (rewrite !is_Some_upd_prev; auto using union_links_is_Some)).
+      unfold ret. do 2 f_equal. unfold L', D'. f_equal.
+      * rewrite upd_next_prev_reset by (rewrite is_Some_upd_prev; auto using union_links_is_Some).
+        rewrite upd_prev_union_l by (by apply links_lookup_is_Some).
+        rewrite insert_union_l. f_equal. rewrite Hdel. by rewrite insert_delete_insert.
+      * rewrite insert_insert. f_equal.
+  - (* the item is not the first child *)
+    destruct (ks !! 0) as [c0|] eqn:Hc0; [|apply lookup_ge_None in Hc0; apply lookup_lt_Some in Hkx; lia].
+    destruct (ks !! k') as [pv|] eqn:Hpv; [|apply lookup_ge_None in Hpv; apply lookup_lt_Some in Hkx; lia].
+    assert (c0 <> x) by (eapply (NoDup_lookup_ne ks 0 (S k')); eauto).
+    assert (pv <> x) by (eapply (NoDup_lookup_ne ks k' (S k')); eauto; lia).
+    assert (Hc0ks : c0 ∈ ks) by (by eapply elem_of_list_lookup_2).
+    assert (Hpvks : pv ∈ ks) by (by eapply elem_of_list_lookup_2).
+    assert (Hchild : child_of d ks = Some c0) by (by apply ref_ok_child_of_nonempty).
+    assert (Hdat : mk_dat d (delete (S k') ks) = mk_dat d ks).
+    { apply mk_dat_head; [|by rewrite head_lookup, lookup_delete_lt by lia; rewrite Hc0].
+      rewrite !head_lookup. by rewrite lookup_delete_lt by lia. }
+    rewrite Hchild. rewrite (ptr_eqb_Some_ne x c0) by done. cbn [negb]. mn.
+    rewrite (run_get_prev_bind _ _ _ _ _ _ Hlx HLx). rewrite link_at_S. cbn [fst snd]. rewrite Hpv.
+    cbn [is_null]. rewrite bindM_ret.
+    rewrite (run_get_child_bind _ _ _ _ _ _ Hlp (lookup_insert _ _ _)).
+    change (nd_child (mk_dat d ks)) with (child_of d ks). rewrite Hchild.
+    rewrite (ptr_eqb_Some_ne x c0) by done. cbn [negb when]. mn.
+    rewrite (run_get_prev_bind _ _ _ _ _ _ Hlx HLx). rewrite link_at_S. cbn [fst snd]. rewrite Hpv. mn.
+    rewrite (run_get_next_bind _ _ _ _ _ _ Hlx HLx). rewrite link_at_S. cbn [fst snd]. mn.
+    rewrite run_set_next_bind by (auto using union_links_is_Some).
+    rewrite (run_get_next_bind _ _ _ _ _ (link_at ks (S k')) Hlx) by (by rewrite lookup_upd_next_ne).
+    rewrite link_at_S. cbn [fst snd].
+    destruct (ks !! S (S k')) as [n'|] eqn:Hn.
+    + (* a middle child *)
+      assert (n' <> x) by (eapply (NoDup_lookup_ne ks (S (S k')) (S k')); eauto).
+      assert (Hn'ks : n' ∈ ks) by (by eapply elem_of_list_lookup_2).
+      cbn [is_null negb when]. mn.
+      rewrite (run_get_next_bind _ _ _ _ _ (link_at ks (S k')) Hlx) by (by rewrite lookup_upd_next_ne).
+      rewrite link_at_S. cbn [fst snd]. rewrite Hn. mn.
+      rewrite (run_get_prev_bind _ _ _ _ _ (link_at ks (S k')) Hlx) by (by rewrite lookup_upd_next_ne).
+      rewrite link_at_S. cbn [fst snd]. rewrite Hpv. mn.
+      rewrite run_set_prev_bind by (auto || (rewrite is_Some_upd_next; auto using union_links_is_Some)).
+      rewrite (run_get_child_bind _ _ _ _ _ _ Hlp (lookup_insert _ _ _)).
+      change (nd_child (mk_dat d ks)) with (child_of d ks). rewrite Hchild.
+      rewrite (ptr_eqb_Some_ne x c0) by done. mn.
+      rewrite (run_get_next_bind _ _ _ _ _ (link_at ks (S k')) Hlx)
+        by (by rewrite lookup_upd_prev_ne, lookup_upd_next_ne).
+      rewrite link_at_S. cbn [fst snd]. rewrite Hn. cbn [is_null when]. rewrite bindM_ret.
+      rewrite run_set_prev_bind
+        by (auto || (rewrite is_Some_upd_prev, is_Some_upd_next; auto using union_links_is_Some)).
+      rewrite run_set_next_bind
+        by (auto || (rewrite !is_Some_upd_prev, is_Some_upd_next; auto using union_links_is_Some)).
+      unfold ret. do 2 f_equal. unfold L', D'. f_equal.
+      * rewrite upd_next_prev_reset by (rewrite is_Some_upd_prev, is_Some_upd_next; auto using union_links_is_Some).
+        rewrite upd_next_union_l by (by apply links_lookup_is_Some).
+        rewrite upd_prev_union_l by (rewrite is_Some_upd_next; by apply links_lookup_is_Some).
+        rewrite insert_union_l. f_equal.
+        rewrite (links_delete_mid ks (S k') x pv n' NDks Hkx ltac:(lia) Hpv Hn).
+        by rewrite insert_delete_insert.
+      * by rewrite Hdat.
+    + (* the last child: head.prev must designate the new tail *)
+      cbn [is_null negb when]. rewrite bindM_ret.
+      rewrite (run_get_child_bind _ _ _ _ _ _ Hlp (lookup_insert _ _ _)).
+      change (nd_child (mk_dat d ks)) with (child_of d ks). rewrite Hchild.
+      rewrite (ptr_eqb_Some_ne x c0) by done. mn.
+      rewrite (run_get_next_bind _ _ _ _ _ (link_at ks (S k')) Hlx) by (by rewrite lookup_upd_next_ne).
+      rewrite link_at_S. cbn [fst snd]. rewrite Hn. cbn [is_null when]. mn.
+      rewrite (run_get_child_bind _ _ _ _ _ _ Hlp (lookup_insert _ _ _)).
+      change (nd_child (mk_dat d ks)) with (child_of d ks). rewrite Hchild. mn.
+      rewrite (run_get_prev_bind _ _ _ _ _ (link_at ks (S k')) Hlx) by (by rewrite lookup_upd_next_ne).
+      rewrite link_at_S. cbn [fst snd]. rewrite Hpv.
+      rewrite run_set_prev_bind by (auto || (rewrite is_Some_upd_next; auto using union_links_is_Some)).
+      rewrite run_set_prev_bind
+        by (auto || (rewrite is_Some_upd_prev, is_Some_upd_next; auto using union_links_is_Some)).
+      rewrite run_set_next_bind
+        by (auto || (rewrite !is_Some_upd_prev, is_Some_upd_next; auto using union_links_is_Some)).
+      unfold ret. do 2 f_equal. unfold L', D'. f_equal.
+      * rewrite upd_next_prev_reset by (rewrite is_Some_upd_prev, is_Some_upd_next; auto using union_links_is_Some).
+        rewrite upd_next_union_l by (by apply links_lookup_is_Some).
+        rewrite upd_prev_union_l by (rewrite is_Some_upd_next; by apply links_lookup_is_Some).
+        rewrite insert_union_l. f_equal.
+        rewrite (links_delete_last ks (S k') x pv c0 NDks Hkx ltac:(lia) Hpv Hn) by (by rewrite head_lookup).
+        by rewrite insert_delete_insert.
+      * by rewrite Hdat.
+Qed.
+
+Local Open Scope Z_scope.
+
+(** * cJSON_InsertItemInArray *)
+Lemma find_tree_remove_root F x tx p n :
+  NoDup (ids F) -> find_root x F = Some tx -> find_tree p (remove_root x F) = Some n -> find_tree p F = Some n.
+Proof.
+  intros ND Hx Hp. destruct (find_root_split _ _ _ (NoDup_roots _ ND) Hx) as (F1 & F2 & HF & HF0).
+  apply find_tree_Some in Hp as [Hn Hp]. apply find_tree_unique; [done| |done].
+  rewrite HF0 in Hn. rewrite HF. rewrite nodes_app in *. rewrite nodes_cons.
+  apply elem_of_app in Hn as [Hn|Hn]; apply elem_of_app; [by left|right]. apply elem_of_app. by right.
+Qed.
+
+Lemma fmap_insert_at {A B} (f : A -> B) (k : nat) (a : A) (l : list A) :
+  f <$> insert_at k a l = insert_at k (f a) (f <$> l).
+Proof. unfold insert_at. by rewrite fmap_app, fmap_cons, fmap_take, fmap_drop. Qed.
+
+Lemma insert_at_not_head {A} (k : nat) (a : A) (l : list A) :
+  k <> 0%nat -> l <> [] -> head (insert_at k a l) = head l.
+Proof. intros Hk Hl. unfold insert_at. destruct k; [done|]. by destruct l. Qed.
+
+Lemma cJSON_InsertItemInArray_sim_append h F p x tx d cs which :
+  WF h F -> p <> x ->
+  find_root x F = Some tx ->
+  find_tree p (remove_root x F) = Some (T p d cs) ->
+  is_ref d = false -> 0 <= which -> (length cs <= Z.to_nat which)%nat ->
+  let F' := set_children p (cs ++ [tx]) (remove_root x F) in
+  spec_insert F (Some p) which (Some x) = (F', true) /\
+  cJSON_InsertItemInArray (Some p) which (Some x) h = Ret (true, upd_maps h (heap_lnk_of F') (heap_dat_of F')) /\
+  WF (upd_maps h (heap_lnk_of F') (heap_dat_of F')) F'.
+Proof.
+  intros W Hpx Hx Hp Href Hw Hlen F'.
+  pose proof (find_tree_remove_root _ _ _ _ _ (wf_nodup _ _ W) Hx Hp) as HpF.
+  destruct (add_item_to_array_sim h F p x tx d cs W Hpx Hx Hp Href) as (S1 & S2 & S3).
+  assert (Hidx : spec_get_index F (Some p) which = None).
+  { unfold spec_get_index, children_of. rewrite HpF. cbn. apply lookup_ge_None. by rewrite fmap_length. }
+  split; [|split; [|exact S3]].
+  - unfold spec_insert. destruct (Z.ltb_spec which 0); [lia|]. cbn [orb].
+    rewrite bool_decide_eq_false_2 by congruence. by rewrite Hidx.
+  - unfold cJSON_InsertItemInArray. destruct (Z.ltb_spec which 0); [lia|]. cbn [orb is_null].
+    rewrite (ptr_eqb_Some_ne _ _ Hpx).
+    rewrite (bindM_Ret _ _ _ _ _ (get_array_item_sim h F p d cs which W HpF Href Hw)).
+    rewrite Hidx. cbn [is_null]. exact S2.
+Qed.
+
+Lemma cJSON_InsertItemInArray_sim_before h F p x tx d cs which :
+  WF h F -> p <> x ->
+  find_root x F = Some tx ->
+  find_tree p (remove_root x F) = Some (T p d cs) ->
+  is_ref d = false -> 0 <= which -> (Z.to_nat which < length cs)%nat ->
+  let F' := set_children p (insert_at (Z.to_nat which) tx cs) (remove_root x F) in
+  spec_insert F (Some p) which (Some x) = (F', true) /\
+  cJSON_InsertItemInArray (Some p) which (Some x) h = Ret (true, upd_maps h (heap_lnk_of F') (heap_dat_of F')) /\
+  WF (upd_maps h (heap_lnk_of F') (heap_dat_of F')) F'.
+Proof.
+  intros W Hpx Hx Hp Href Hw Hlen F'.
+  pose proof (wf_nodup _ _ W) as ND.
+  pose proof (find_tree_remove_root _ _ _ _ _ ND Hx Hp) as HpF.
+  set (k := Z.to_nat which) in *.
+  (* 2. focus *)
+  destruct (focus_root_container _ _ _ _ _ _ ND Hx Hp) as (FL0 & Htx & ND0 & HFp & E1 & E2).
+  set (F0 := remove_root x F) in *.
+  set (FL := flat cs ++ flat_t tx ++ FL0) in *.
+  assert (HR : roots F ≡ₚ x :: roots F0) by (rewrite HFp; cbn; by rewrite Htx).
+  assert (HFL' : flat F' ≡ₚ (p, d, insert_at k x (tid <$> cs)) :: FL).
+  { unfold F'. rewrite E2. rewrite fmap_insert_at, Htx. apply Permutation_skip.
+    unfold FL. rewrite insert_at_perm, flat_cons. rewrite <- !app_assoc.
+    rewrite !app_assoc. apply Permutation_app_tail. apply Permutation_app_comm. }
+  assert (HR' : roots F' ≡ₚ roots F0) by (unfold F'; by rewrite roots_set_children).
+  assert (Hidx : spec_get_index F (Some p) which = (tid <$> cs) !! k).
+  { unfold spec_get_index, children_of. rewrite HpF. reflexivity. }
+  assert (Hlen' : (k < length (tid <$> cs))%nat) by (by rewrite fmap_length).
+  remember (tid <$> cs) as ks eqn:Eks.
+  destruct (ks !! k) as [a|] eqn:Ha; [|apply lookup_ge_None in Ha; lia].
+  (* 1. the specification *)
+  split.
+  { unfold spec_insert. destruct (Z.ltb_spec which 0); [lia|]. cbn [orb].
+    rewrite bool_decide_eq_false_2 by congruence. rewrite Hidx. rewrite Hx. unfold children_of. fold F0. by rewrite Hp. }
+  clear Eks.
+  destruct (heap_lnk_of_focus _ _ _ _ _ _ ND HR E1) as [HL NDk].
+  destruct (heap_dat_of_focus _ _ _ _ _ ND E1) as [HD HpFL].
+  rewrite lnk_of_cons_root in HL. set (M0 := lnk_of (roots F0) FL) in *.
+  assert (Hxks : x ∉ ks).
+  { apply NoDup_app in NDk as (_ & H & _). intros Hin. apply (H _ Hin). unfold lnk_keys. cbn. by left. }
+  assert (NDks : NoDup ks) by (by apply NoDup_app in NDk as (? & _ & _)).
+  assert (NDxks : NoDup (x :: ks)) by (by apply NoDup_cons).
+  assert (Hlive : forall c, c = p \/ c = x \/ c ∈ ks -> c ∈ h_live h).
+  { intros c Hc. apply (WF_ids_live _ _ _ W). destruct Hc as [->|[->|Hc]].
+    - rewrite ids_flat, E1. cbn. by left.
+    - apply roots_subseteq_ids. rewrite HR. by left.
+    - eapply (cids_in_ids F p d ks); [|done]. rewrite E1. by left. }
+  assert (Hlx : x ∈ h_live h) by auto. assert (Hlp : p ∈ h_live h) by auto.
+  assert (Haks : a ∈ ks) by (by eapply elem_of_list_lookup_2).
+  assert (Hax : a <> x) by (intros ->; done).
+  destruct (ks !! 0%nat) as [c0|] eqn:Hc0; [|apply lookup_ge_None in Hc0; lia].
+  assert (Hchild : child_of d ks = Some c0) by (by apply ref_ok_child_of_nonempty).
+  (* 3. the target *)
+  set (L' := links (insert_at k x ks) ∪ M0). set (D' := <[p := mk_dat d (insert_at k x ks)]> (dat_of FL)).
+  assert (W' : WF (upd_maps h L' D') F').
+  { eapply (WF_refocus h _ F F' (roots F0) p d ks (insert_at k x ks) FL W E1 HR' HFL'); try done. congruence. }
+  assert (heap_lnk_of F' = L') as -> by (symmetry; apply (wf_lnk _ _ W')).
+  assert (heap_dat_of F' = D') as -> by (symmetry; apply (wf_dat _ _ W')).
+  split; [|exact W'].
+  (* 4. run the code *)
+  unfold cJSON_InsertItemInArray. destruct (Z.ltb_spec which 0); [lia|]. cbn [orb is_null].
+  rewrite (ptr_eqb_Some_ne _ _ Hpx).
+  rewrite (bindM_Ret _ _ _ _ _ (get_array_item_sim h F p d cs which W HpF Href Hw)).
+  rewrite Hidx. cbn [is_null].
+  rewrite <- (upd_maps_id h) at 1. rewrite (wf_lnk _ _ W), (wf_dat _ _ W), HL, HD.
+  rewrite (union_insert_move _ _ _ _ (links_lookup_None _ _ Hxks)).
+  rewrite (run_get_child_bind _ _ _ _ _ _ Hlp (lookup_insert _ _ _)).
+  change (nd_child (mk_dat d ks)) with (child_of d ks). rewrite Hchild.
+  pose proof (focus_lookup x (None, None) ks M0 k a NDks Ha Hax) as HLa.
+  assert (HLx0 : is_Some (<[x:=(None, None)]> (links ks) !! x)) by (apply focus_left_is_Some; auto).
+  destruct (decide (k = 0%nat)) as [Hk0|Hk0].
+  - (* before the first child *)
+    rewrite Hk0 in *. assert (a = c0) as -> by congruence.
+    rewrite ptr_eqb_refl. cbn [negb]. rewrite bindM_ret.
+    rewrite run_set_next_bind by (auto using focus_is_Some).
+    rewrite (run_get_prev_bind _ _ _ _ c0 (link_at ks 0) (Hlive c0 ltac:(auto))) by (by rewrite lookup_upd_next_ne).
+    rewrite link_at_0. cbn [snd].
+    rewrite run_set_prev_bind by (auto || (rewrite is_Some_upd_next; auto using focus_is_Some)).
+    rewrite run_set_prev_bind by (auto || (rewrite is_Some_upd_prev, is_Some_upd_next; auto using focus_is_Some)).
+    rewrite (run_get_child_bind _ _ _ _ _ _ Hlp (lookup_insert _ _ _)).
+    change (nd_child (mk_dat d ks)) with (child_of d ks). rewrite Hchild. rewrite ptr_eqb_refl.
+    rewrite (run_set_child_bind _ _ _ _ _ _ _ Hlp (lookup_insert _ _ _)).
+    unfold ret. do 2 f_equal. unfold L', D'. rewrite Hk0, insert_at_0. f_equal.
+    + rewrite upd_next_union_l by done.
+      rewrite upd_prev_union_l by (by rewrite is_Some_upd_next).
+      rewrite upd_prev_next_insert.
+      rewrite upd_prev_union_l by (apply focus_left_is_Some; auto).
+      f_equal. symmetry. apply links_insert_head; [done|by rewrite head_lookup].
+    + rewrite insert_insert. reflexivity.
+  - (* before a later child *)
+    destruct (ks !! pred k) as [pv|] eqn:Hpv; [|apply lookup_ge_None in Hpv; lia].
+    assert (Hpvks : pv ∈ ks) by (by eapply elem_of_list_lookup_2).
+    assert (pv <> x) by (intros ->; done).
+    assert (a <> c0) by (eapply (NoDup_lookup_ne ks k 0); eauto).
+    rewrite (ptr_eqb_Some_ne a c0) by done. cbn [negb]. mn.
+    rewrite (run_get_prev_bind _ _ _ _ a _ (Hlive a ltac:(auto)) HLa). rewrite (link_at_pos ks k Hk0). cbn [snd]. rewrite Hpv.
+    cbn [is_null]. rewrite bindM_ret.
+    rewrite run_set_next_bind by (auto using focus_is_Some).
+    rewrite (run_get_prev_bind _ _ _ _ a (link_at ks k) (Hlive a ltac:(auto))) by (by rewrite lookup_upd_next_ne).
+    rewrite (link_at_pos ks k Hk0). cbn [snd]. rewrite Hpv.
+    rewrite run_set_prev_bind by (auto || (rewrite is_Some_upd_next; auto using focus_is_Some)).
+    rewrite run_set_prev_bind by (auto || (rewrite is_Some_upd_prev, is_Some_upd_next; auto using focus_is_Some)).
+    rewrite (run_get_child_bind _ _ _ _ _ _ Hlp (lookup_insert _ _ _)).
+    change (nd_child (mk_dat d ks)) with (child_of d ks). rewrite Hchild.
+    rewrite (ptr_eqb_Some_ne a c0) by done. mn.
+    rewrite (run_get_prev_bind _ _ _ _ _ (Some a, Some pv) Hlx).
+    2:{ rewrite lookup_upd_prev_ne by done. rewrite lookup_upd_prev, lookup_upd_next, focus_lookup_x. reflexivity. }
+    cbn [snd].
+    rewrite run_set_next_bind by (auto || (rewrite !is_Some_upd_prev, is_Some_upd_next; auto using focus_is_Some)).
+    unfold ret. do 2 f_equal. unfold L', D'. f_equal.
+    + rewrite upd_next_union_l by done.
+      rewrite upd_prev_union_l by (by rewrite is_Some_upd_next).
+      rewrite upd_prev_next_insert.
+      rewrite upd_prev_union_l by (apply focus_left_is_Some; auto).
+      rewrite upd_next_union_l by (rewrite is_Some_upd_prev; apply focus_left_is_Some; auto).
+      f_equal. symmetry. by apply links_insert_mid.
+    + f_equal. apply mk_dat_head.
+      * symmetry. apply insert_at_not_head; [done|]. intros ->. done.
+      * rewrite head_lookup, Hc0. done.
+Qed.
